@@ -4,6 +4,8 @@ set -eu
 export GOFLAGS=-mod=mod GOPROXY=off GOSUMDB=off GOTOOLCHAIN=local
 cd /verif/harness
 mkdir -p /verif/.bin /verif/evidence
-go1.26.8 build -tags verif -o /verif/.bin/verifx ./cmd/verifx
-go1.26.8 test -tags verif -c -o /verif/.bin/c11.test ./checks/c11/
+OVLDIR=/verif/.bin/overlay-base
+OVLJSON="$(go1.26.8 run ./cmd/mkoverlay "$OVLDIR")"
+go1.26.8 build -tags verif -overlay "$OVLJSON" -o /verif/.bin/verifx ./cmd/verifx
+go1.26.8 test -tags verif -overlay "$OVLJSON" -c -o /verif/.bin/c11.test ./checks/c11/
 echo "setup ok"
